@@ -114,10 +114,35 @@ def _valid_vectors(npart, prev_present, cur_present):
 @harness(P, quick=grid(npart=[2], nt=[3, 4]) + grid(npart=[3], nt=[3]), thorough=grid(npart=[3], nt=[4]), max_paths=400000, time_budget=500, time_budget_thorough=3000, hard_timeout_thorough=3300, witnesses=1)
 def propagation_lemma(env, npart, nt):
     """identifier propagation over any sequence of per-step matches allowed by the step lemma."""
-    if not env.sym:
-        env.claim(True, "propagation lemma (symbolic-mode obligation: the matcher is replaced by its contract)")
-        return
     from wavespectra.partition import tracking as TR
+    if not env.sym:
+        # replay on the REAL function: the presence pattern of the counterexample is realised with slot-specific
+        # statistics (each present partition keeps its own frequency/direction, 0.1 Hz apart), for which the real
+        # matcher continues a slot iff it was present at the previous step
+        present = [[(int(env.inputs.get("present_%d" % t, 0)) >> p) & 1 == 1 for p in range(npart)] for t in range(nt)]
+        fp = np.array([[0.1 + 0.1 * p if present[t][p] else np.nan for t in range(nt)] for p in range(npart)])
+        dpm = np.array([[40.0 + 100.0 * p if present[t][p] else np.nan for t in range(nt)] for p in range(npart)])
+        times = np.array("2020-01-01T00", dtype="datetime64[ns]") + np.arange(nt) * np.timedelta64(3, "h")
+        ids, n = TR.np_track_partitions(times, fp, dpm, np.full(nt, 10.0))
+        ids = np.asarray(ids).astype(int)
+        info = {"present": present, "ids": ids.tolist(), "n": int(n)}
+        env.claim(all((ids[p, t] == -999) == (not present[t][p]) for p in range(npart) for t in range(nt)), "identifier for every non-empty partition, missing marker for every empty one", info)
+        for t in range(nt):
+            col = [ids[p, t] for p in range(npart) if present[t][p]]
+            env.claim(len(set(col)) == len(col), "no identifier is used twice within a time step", info)
+        seen = []
+        for t in range(nt):
+            for p in range(npart):
+                if present[t][p] and ids[p, t] not in seen:
+                    seen.append(int(ids[p, t]))
+        env.claim(seen == list(range(int(n))), "identifiers are exactly 0..N-1 in order of first appearance, N the reported count", info)
+        for t in range(1, nt):
+            for p in range(npart):
+                if present[t][p] and present[t - 1][p]:
+                    env.claim(ids[p, t] == ids[p, t - 1], "an identifier is carried along a match", info)
+                elif present[t][p]:
+                    env.claim(all(ids[p, t] != ids[q, s] for s in range(t) for q in range(npart) if present[s][q]), "an unmatched partition gets an identifier never used before (a discontinued one never reappears)", info)
+        return
     # presence pattern per step, then one allowed match vector per step: all chosen by forking
     present = []
     for t in range(nt):
@@ -166,7 +191,7 @@ def propagation_lemma(env, npart, nt):
                 env.claim(all(ids[p, t] != ids[q, s] for s in range(t) for q in range(npart) if present[s][q]), "an unmatched partition gets an identifier never used before (a discontinued one never reappears)", info)
 
 
-@harness(P, quick=[dict(pattern="xxxxxx"), dict(pattern="xxx-xx")], thorough=[dict(pattern="xx-xxx"), dict(pattern="x-xxxx")], max_paths=30000, time_budget=500, witnesses=2)
+@harness(P, quick=[dict(pattern="xxxxxx"), dict(pattern="xxx-xx"), dict(pattern="xx--xx"), dict(pattern="--xxx-")], thorough=[dict(pattern="xx-xxx"), dict(pattern="x-xxxx"), dict(pattern="x---xx")], max_paths=30000, time_budget=500, witnesses=2)
 def glue(env, pattern):
     """the real np_track_partitions on 2 partitions x 3 steps: per-step slices, threshold indexing and dt are the ones the lemmas assume."""
     from wavespectra.partition import tracking as TR
